@@ -80,6 +80,8 @@ def detect(sid, props=None, tier='quick'):
     d = os.path.join(SEEDED, sid)
     meta = json.load(open(os.path.join(d, 'meta.json')))
     props = props or ([meta['property']] + list(meta.get('also', [])))
+    if meta.get('obsolete'):
+        return sid, [(props[0], 'obsolete', meta['obsolete'][:150])]
     try:
         root = scratch(os.path.join(d, 'patch.diff'))
     except StalePatch as e:
@@ -120,8 +122,8 @@ def main():
             for sid, res in ex.map(lambda s: detect(s, None if not also else [json.load(open(os.path.join(SEEDED, s, 'meta.json')))['property']] + also, a.tier), ids):
                 for p, status, info in res:
                     print('%-28s %-4s %-12s %s' % (sid, p, status, info))
-                bad += not any(x[1] == 'caught' for x in res)
-                hit = [x for x in res if x[1] == 'caught'] or res[:1]
+                bad += not any(x[1] in ('caught', 'obsolete') for x in res)
+                hit = [x for x in res if x[1] in ('caught', 'obsolete')] or res[:1]
                 p, status, info = hit[0]
                 m = re.search(r'oracle=(\S+) mech=(\{.*?\}) count', info)
                 by = ('%s %s' % (m.group(1), m.group(2))) if m else status
